@@ -36,7 +36,7 @@ package controller
 //@   prop C08
 //@   requires ctlwf(c)
 //@   modifies mapof(c.procs)
-//@   ensures @registered-when-created ctlwf(c) && (p != nil ==> svcName != "" && has(c.procs, svcName) && c.procs[svcName] == p)
+//@   ensures @registered-when-created ctlwf(c) && (p != nil ==> svcName != "" && cfg != nil && cfgvalid(cfg) && has(c.procs, svcName) && c.procs[svcName] == p)
 //@   ensures @nothing-registered-otherwise p == nil ==> forall n string :: has(c.procs, n) == old(has(c.procs, n)) && (has(c.procs, n) ==> c.procs[n] == old(c.procs[n]))
 //@   ensures @others-untouched forall n string :: n != svcName ==> has(c.procs, n) == old(has(c.procs, n)) && (has(c.procs, n) ==> c.procs[n] == old(c.procs[n]))
 
@@ -89,3 +89,8 @@ package controller
 //@   modifies atombool
 //@   ensures @one-host-per-endpoint-in-order len(result) == len(endpoints) && forall k int :: 0 <= k && k < len(result) ==> result[k] != nil && result[k].Type == ite(endpoints[k].Type == 1, 1, 0)
 //@   loop 0 invariant (cap(hosts) == 0 || fresh(hosts)) && len(hosts) == rangeindex + 1 && forall k int :: 0 <= k && k < len(hosts) ==> hosts[k] != nil && hosts[k].Type == ite(endpoints[k].Type == 1, 1, 0)
+
+//@ func New
+//@   prop C08
+//@   modifies nothing
+//@   ensures @no-processor-yet result0 != nil && ctlwf(result0) && len(result0.procs) == 0 && result1 == nil
